@@ -81,6 +81,7 @@ def gen_case(tape, tier):
         # ... executed after the other runs in a folder of its own, or BEFORE the first run in the first run's folder,
         # which then continues it (cleanup=False) under the case's executor and storage: together they are one full run
         case["restricted_first"] = bool(tape.coin(0.5, "restricted-first")) and cfg["run_folder"]
+        case["restricted_swap"] = bool(case["restricted_first"] and tape.coin(0.4, "swap-memory-backend"))
     return case
 
 
@@ -184,6 +185,11 @@ def _run_case(case, exec_seed, exec_tape, stack):
     if case.get("restricted"):
         rcfg = dict(cfg, fixed=case["restricted"], run_folder=True)
         if case.get("restricted_first"):
+            if case.get("restricted_swap"):
+                # the two memory backends are interchangeable on disk: the earlier part was run with the other one
+                swap = {"dict": "shared_memory_dict", "shared_memory_dict": "dict"}
+                st = rcfg["storage"]
+                rcfg["storage"] = swap.get(st, st) if isinstance(st, str) else {k: swap.get(v, v) for k, v in st.items()}
             runs.insert(0, ("restricted", dict(rcfg, persist_memory=True, executor={"kind": "sequential"}, entry="map")))
         else:
             runs.append(("restricted", rcfg))
